@@ -139,6 +139,15 @@ def run_case(case):
         client = fc.SecopClient('fake://peer', log=None)
         client.activate = False
         client.txq.name, client.pending.name = 'txq', 'pending'
+        txq_dropped = []         # events of the entries removed by the non-blocking get of disconnect()
+        orig_get = client.txq.get
+
+        def txq_get(block=True, timeout=None):
+            item = orig_get(block, timeout)
+            if not block and item is not None:
+                txq_dropped.append(item[1].name)
+            return item
+        client.txq.get = txq_get
         client._lock.name, client._shutdown.name = 'lock', 'shutdown'
         # the state connect() leaves behind (describe/activate exchange is not part of this property)
         conn = FakeConn('fake://peer')
@@ -168,7 +177,9 @@ def run_case(case):
                 return 'pending'
             if has(list(client.active_requests.values())):
                 return 'active'
-            return 'sent-gone' if any(t == i for t, _ in sends) else 'dropped'
+            if name in txq_dropped:
+                return 'txq-dropped'
+            return 'sent-gone' if any(t == i for t, _ in sends) else 'vanished'
 
         def caller(i):
             action, ident = reqs[i]
@@ -406,7 +417,7 @@ FINDING_CLASSIFIERS = {
     # a request that sits in txq when disconnect() empties it (or is put there afterwards) is dropped without its
     # event being set
     'txq_entry_lost': lambda case, obs, f: f['class'] == 'not-released' and
-    any(f['what'].startswith(f'caller {i} ({w})') for i, w in enumerate(obs['where']) if w in ('txq', 'dropped')),
+    any(f['what'].startswith(f'caller {i} ({w})') for i, w in enumerate(obs['where']) if w in ('txq', 'txq-dropped')),
     # parked in `pending` with nothing left to re-queue it
     'parked_in_pending': lambda case, obs, f: f['class'] == 'request-never-sent' and
     any(f['what'].startswith(f'caller {i} (pending)') for i, w in enumerate(obs['where']) if w == 'pending'),
@@ -434,7 +445,7 @@ def outcome_labels(case, obs):
         labs.add('collision-parked')
     if any(w == 'pending' for w in obs['where']):
         labs.add('timed-out-in-pending')
-    if any(w in ('txq', 'dropped') for w in obs['where']):
+    if any(w in ('txq', 'txq-dropped') for w in obs['where']):
         labs.add('timed-out-lost-in-txq')
     return sorted(labs)
 
